@@ -384,6 +384,8 @@ struct World
     std::map<int64_t, int64_t> free_elem;  // parent -> element whose position is free this step
     void check_purity_begin();
     void check_purity_end(const char* what);
+    void purity_extras();
+    void table_read_all();  // table.cpp: every read accessor of the 2.x table API
     void check_roundtrip(const dj::track_snapshot& written, dj::track& t,
                          const char* opname, bool is_create);
     bool field_rule(int field, const dj::track_snapshot& s, const dj::track_snapshot& r,
